@@ -213,7 +213,7 @@ def read (k : Kind) (tag : Option String) (b : Bytes) : Read :=
     (match readDate bs with
      | some (some d) => .exact (.date (some d))
      | some none => .exact (.date none)
-     | none => .invalid [.date none])
+     | none => if bs.all nibblesOk then .invalid [.date none] else .invalid [])   -- not even digits: malformed, fails
   | .datePtr, bs =>
     (match readDate bs with
      | some (some d) => .exact (.datePtr (some (some d)))
@@ -223,7 +223,7 @@ def read (k : Kind) (tag : Option String) (b : Bytes) : Read :=
     (match readDateTime bs with
      | some (some d) => .exact (.dateTime (some d))
      | some none => .exact (.dateTime none)
-     | none => .invalid [.dateTime none])
+     | none => if bs.all nibblesOk then .invalid [.dateTime none] else .invalid [])
   | .dateTimePtr, bs =>
     (match readDateTime bs with
      | some (some d) => .exact (.dateTimePtr (some (some d)))
